@@ -190,8 +190,20 @@ def fresh(job):
     return json.loads(data) if data else {"status": "crash", "message": "fresh child produced nothing"}
 
 
+def _exit_with_parent():
+    """never outlive the check that started us"""
+    import time
+
+    parent = os.getppid()
+    while True:
+        time.sleep(2)
+        if os.getppid() != parent:
+            os._exit(0)
+
+
 def main():
     out = sys.stdout
+    threading.Thread(target=_exit_with_parent, daemon=True).start()
     for line in sys.stdin:
         line = line.strip()
         if not line:
@@ -214,7 +226,7 @@ def main():
             res["hashseed"] = os.environ.get("PYTHONHASHSEED")
         except BaseException as e:  # noqa: BLE001
             res = {"error": f"{type(e).__name__}: {e}", "trace": traceback.format_exc()[-800:]}
-        out.write(json.dumps(res) + "\n")
+        out.write("@@VF " + json.dumps(res) + "\n")
         out.flush()
 
 
